@@ -399,6 +399,9 @@ func c02(r *Report, s *Sem) {
 		})
 	}
 
+	R6 := r.Rule("R6", "accepted ⇒ re-encodable: co-presence symmetry between decoder and encoder (a member the encoder emits only together with another field is stored by the decoder only when that other member is on the wire), so what was accepted does not change under re-encoding", 10)
+	checkCoPresence(r, R6)
+
 	// ---- R5
 	checkFactory := func(f *ssa.Function, where string) {
 		ok := true
